@@ -82,7 +82,12 @@ def compute(prog):
     sigs = {}
     for fn in prog.all_functions():
         s = Sig()
-        for n in walk_local(fn.node):
+        # the effects of the lambdas a function defines count as its own (they run on its behalf:
+        # reduce(lambda ...), sorted(key=lambda ...), filter(lambda ...))
+        nodes = list(walk_local(fn.node))
+        for lam in [x for x in ast.walk(fn.node) if isinstance(x, ast.Lambda)]:
+            nodes += [x for x in ast.walk(lam.body) if not isinstance(x, (ast.Yield, ast.YieldFrom))]
+        for n in nodes:
             if isinstance(n, ast.Attribute):
                 if isinstance(n.ctx, ast.Store):
                     s.stores.add(n.attr)
